@@ -36,7 +36,8 @@ Print Assumptions C02_root_err.
 
 (** Text the grammar cannot match is kept: the three content branches of [root_parse]. With no
     match the whole code span goes under one Unparsable node; with a partial match the
-    unmatched tail is split into leading non-code and a trailing File node; nothing else. *)
+    unmatched tail is split into leading non-code and a trailing Unparsable node (a second File node
+    before the repair, see [C02_root_legacy_refuted]); nothing else. *)
 Theorem C02_unparsable_kept : forall ts m,
   ts <> [] -> wf_root ts m = true -> start_idx ts <> end_idx ts ->
   let n := N.of_nat (length ts) in
@@ -54,11 +55,41 @@ Theorem C02_unparsable_kept : forall ts m,
          head ++ tail = slice_raw ts (mr_end m) ei /\
          forallb (fun t => negb (t_code t)) head = true /\ tail <> [] /\
          root_parse ts (GOk m) =
-         Some (POk (Node K_File (pre ++ (matched ++ map tok_tree head ++ [Node K_File (map tok_tree tail)]) ++ post)))) /\
+         Some (POk (Node K_File (pre ++ (matched ++ map tok_tree head ++ [Node K_Unparsable (map tok_tree tail)]) ++ post)))) /\
     (has_match m = true -> mr_end m = ei ->
        root_parse ts (GOk m) = Some (POk (Node K_File (pre ++ matched ++ post)))).
 Proof. exact root_parse_shape. Qed.
 Print Assumptions C02_unparsable_kept.
+
+(** ... so the tokens outside every unparsable node of the result are exactly: the non-code around the
+    code span, what the root grammar matched (minus the unparsable sections inside the match) and the
+    non-code between the match and the first code token it left over. Everything from the first
+    unmatched code token to the last code token ([tail]) is inside an unparsable node. *)
+Theorem C02_unmatched_flagged : forall ts m,
+  ts <> [] -> wf_root ts m = true -> start_idx ts <> end_idx ts ->
+  let n := N.of_nat (length ts) in
+  let si := start_idx ts in
+  let ei := end_idx ts in
+  exists matched ch head tail,
+    apply ts m = Some matched /\
+    root_parse ts (GOk m) = Some (POk (Node K_File ch)) /\
+    head ++ tail = slice_raw ts (if has_match m then mr_end m else si) ei /\
+    forallb (fun t => negb (t_code t)) head = true /\
+    (tail = [] -> has_match m = true /\ mr_end m = ei) /\
+    outside_l ch = map t_id (slice_raw ts 0 si) ++ (if has_match m then outside_l matched else [])
+                   ++ map t_id head ++ map t_id (slice_raw ts ei n).
+Proof. exact root_parse_unmatched_flagged. Qed.
+Print Assumptions C02_unmatched_flagged.
+
+(** The code before the repair (leftover wrapped in a second File node) violates that equation: a
+    well-formed partial match whose unmatched code token stays outside every unparsable node. *)
+Theorem C02_root_legacy_refuted :
+  exists ts m ch,
+    ts <> [] /\ wf_root ts m = true /\ has_match m = true /\ mr_end m < end_idx ts /\
+    root_parse_legacy ts (GOk m) = Some (POk (Node K_File ch)) /\
+    outside_l ch = map t_id ts.
+Proof. exact root_parse_legacy_refuted. Qed.
+Print Assumptions C02_root_legacy_refuted.
 
 (** The two constructors every combinator uses preserve well-formedness. *)
 Theorem C02_append_WF : forall n a b,
